@@ -22,7 +22,7 @@ RULE = (
     "within 1e-6 relative of tol, or with a MAD cut-off tie, are 'tie' and only sanity-checked); the dense "
     "iterative-correction reference; a recording map wrapper checks that the spans of every pass, clipped to nnz, "
     "tile [0,nnz) (or one chromosome's pixel range in cis mode) exactly once; split(clr, chunksize=c) piped "
-    "through an identity stage returns every stored pixel exactly once. Non-trivial = >=2 spans and a "
+    "through an identity stage returns every stored pixel exactly once; the cooler balance command line (Pool.imap_unordered for -p > 1) stores the same weights as the library call, refuses to overwrite without --force, and store=True writes exactly what is returned. Non-trivial = >=2 spans and a "
     "non-identity completion order. Distinct by sha1 of the canonical case."
 )
 ASSUMPTIONS = [
@@ -191,7 +191,81 @@ def check_sched(case, ctx: Ctx):
                                                     "mode=" + ("cis" if o["cis_only"] else "trans" if o["trans_only"] else "genome")])
 
 
-CHECKS = {"sched": check_sched}
+# ---------------------------------------------------------------------------
+# the command line (Pool.imap_unordered for nproc > 1) and the store= route
+# ---------------------------------------------------------------------------
+
+@st.composite
+def cli_cases(draw):
+    m = draw(c10.matrices(min_bins=4, max_bins=14, max_chroms=3))
+    o = draw(c10.options(m["n"], len(m["sizes"])))
+    o["x0"] = None
+    o["rescale"] = True
+    o["max_iters"] = min(o["max_iters"], 100)
+    o["blacklist"] = None
+    nnz = len(m["rows"])
+    return {"part": "cli", **m, "opts": o, "nproc": draw(st.sampled_from([1, 2, 2, 3])),
+            "chunksize": draw(st.sampled_from([2, 3, 7, max(1, nnz), 10**7])), "group": draw(st.sampled_from(["/", "/g"])),
+            "name": draw(st.sampled_from(["weight", "w2"])), "twice": draw(st.booleans())}
+
+
+def check_cli(case, ctx: Ctx):
+    import cooler
+
+    from ..cliutil import run_cli
+    from ..coolio import create_from_model
+
+    o = case["opts"]
+    n, offsets = case["n"], case["offsets"]
+    A = model.dense(case["rows"], n, True, 0)
+    edges = [[10 * k for k in range(s + 1)] for s in case["sizes"]]
+    bt = {"names": [f"chr{t + 1}" for t in range(len(edges))], "edges": edges, "kinds": ["fixed"] * len(edges)}
+    path = ctx.tmp(".cool")
+    uri = path if case["group"] == "/" else path + "::" + case["group"]
+    try:
+        call("create", create_from_model, uri, bt, case["rows"], True, h5opts={"compression": None})
+        clr = cooler.Cooler(uri)
+        base_w, base_stats = call("balance_cooler(chunksize=None)", c10.run_balance, clr, o, chunksize=None)
+        base_w = np.asarray(base_w, dtype=float)
+        dw, cw = c10.known_modes(case)
+        ref = balmodel.ic_dense(A, offsets, o, diag_weight=dw, use_cweights=cw)
+        _, mtie = balmodel.bin_masks(A, offsets, o, diag_weight=dw)
+        tie = bool(mtie.any()) or any(abs(v - o["tol"]) <= 1e-6 * o["tol"] for v in ref["variances"])
+        args = ["balance", uri, "-p", case["nproc"], "-c", case["chunksize"], "--ignore-diags", o["ignore_diags"],
+                "--mad-max", o["mad_max"], "--min-nnz", o["min_nnz"], "--min-count", o["min_count"], "--tol", repr(o["tol"]),
+                "--max-iters", o["max_iters"], "--name", case["name"]]
+        if o["cis_only"]:
+            args.append("--cis-only")
+        if o["trans_only"]:
+            args.append("--trans-only")
+        rc, _, exc = run_cli(args)
+        check(rc == 0 and exc is None, f"cooler balance {args[2:]} failed: exit {rc} {exc!r}")
+        if case["twice"]:
+            rc2, _, _ = run_cli(args)
+            check(rc2 != 0, "a second 'cooler balance' without --force overwrote an existing weight column")
+            rc3, _, exc3 = run_cli([*args, "--force"])
+            check(rc3 == 0 and exc3 is None, f"cooler balance --force failed: {exc3!r}")
+        stored = cooler.Cooler(uri).bins()[case["name"]][:].to_numpy(dtype=float)
+        check(stored.shape == (n,), "stored weight column length")
+        if not tie:
+            n1, n2 = ~np.isfinite(stored), ~np.isfinite(base_w)
+            check(np.array_equal(n1, n2), lambda: f"cooler balance -p {case['nproc']} -c {case['chunksize']}: NaN set of the stored column differs from the library call at bins {np.flatnonzero(n1 != n2)[:5].tolist()}")
+            check(np.allclose(stored[~n1], base_w[~n1], rtol=1e-8, atol=0),
+                  lambda: f"cooler balance -p {case['nproc']} -c {case['chunksize']}: stored weights differ from the library call, max rel {np.max(np.abs(stored[~n1] - base_w[~n1]) / np.abs(base_w[~n1])):.3g}")
+        # the store= route of the API writes exactly what it returns, and balanced reads use it
+        w4, _ = call("balance_cooler(store=True)", c10.run_balance, clr, o, chunksize=case["chunksize"], store=True, store_name="stored_by_api")
+        col = cooler.Cooler(uri).bins()["stored_by_api"][:].to_numpy(dtype=float)
+        check(np.array_equal(col, np.asarray(w4, dtype=float), equal_nan=True), "balance_cooler(store=True) stored a column that differs from the returned weights")
+        B = cooler.Cooler(uri).matrix(balance="stored_by_api")[:]
+        want = A * np.outer(col, col)
+        check(np.allclose(B, want, rtol=1e-12, atol=0, equal_nan=True), "balanced read with the stored column differs from raw * w_i * w_j")
+    finally:
+        ctx.clean(path)
+    ctx.record(case, case["nproc"] > 1 and len(case["rows"]) > case["chunksize"], ["cli", f"nproc={case['nproc']}", "tie" if tie else "no-tie",
+                                                                                   "group=" + case["group"], "twice" if case["twice"] else "once"])
+
+
+CHECKS = {"sched": check_sched, "cli": check_cli}
 
 
 def replay(ctx: Ctx, case):
@@ -200,4 +274,6 @@ def replay(ctx: Ctx, case):
 
 def run(ctx: Ctx):
     q = ctx.tier == "quick"
-    run_given(ctx, "sched", cases(pools=not q), check_sched, per_shard(ctx, 400 if q else 9000), batch=25)
+    if not run_given(ctx, "sched", cases(pools=not q), check_sched, per_shard(ctx, 280 if q else 9000), batch=20):
+        return
+    run_given(ctx, "cli", cli_cases(), check_cli, per_shard(ctx, 40 if q else 1600), batch=5)
